@@ -1,5 +1,6 @@
 """All sidecar contracts and the per-property target lists."""
 from vlib.vc import contracts_bdd as CB
+from vlib.vc import contracts_autoref as CA_  # noqa: F401 (registers contracts)
 from vlib.vc.contracts_bdd import REG, SPELLINGS  # noqa
 
 _installed = False
@@ -45,11 +46,25 @@ PLUMBING = [T('dd.bdd._request_reordering', consts_spec={'REORDER_FACTOR': 2}),
             T('dd.bdd._suspend_reordering._wrapper', env={'func': 'callable:FUNCQ'})]
 GC = [T(B + 'collect_garbage', variant='all'), T(B + 'collect_garbage', B + 'collect_garbage!roots', variant='roots')]
 
+AF, ABD = 'dd.autoref.Function.', 'dd.autoref.BDD.'
+
+
+def aapply_targets(ops):
+    return [T(ABD + 'apply', variant=o, args={'op': 'op:' + o}) for o in ops]
+
+
+HANDLES = [T(AF + '__init__'), T(AF + '__del__'), T(ABD + '_wrap'), T(ABD + '_add_int'), T(ABD + 'true'), T(ABD + 'false')]
+AOPS = [T(AF + '_apply', variant='and', args={'op': 'op:and'}), T(AF + '_apply', variant='not', args={'op': 'op:not'}),
+        T(AF + '__invert__'), T(AF + '__and__'), T(AF + '__or__'), T(AF + 'implies'), T(AF + 'equiv'), T(AF + '__eq__'), T(AF + '__ne__')]
+AVIEWS = [T(ABD + 'succ'), T(AF + 'low'), T(AF + 'high'), T(AF + 'var'), T(AF + 'level'), T(AF + 'negated'), T(AF + 'ref')]
+
 TARGETS = {
-    'C01': CORE + apply_targets(['not', 'and', 'or', 'xor', 'implies', 'equiv', 'diff', 'ite']),
+    'C01': CORE + apply_targets(['not', 'and', 'or', 'xor', 'implies', 'equiv', 'diff', 'ite']) + AOPS
+    + [T(ABD + 'ite')] + aapply_targets(['~', 'and', '\\/', '#', '=>', '<->', '-', 'ite']),
     'C02': [T(B + 'find_or_add'), T(B + '_ite'), T(B + '_init_terminal'), T(B + 'add_var'), T(B + 'declare'), T(B + 'incref'), T(B + 'decref'),
             T(B + 'var', B + 'var!body')] + GC,
-    'C03': [T(B + '_quantify'), T(B + 'quantify', B + 'quantify!body'), T(B + 'forall'), T(B + 'exist')] + apply_targets(['forall', 'exists']),
+    'C03': [T(B + '_quantify'), T(B + 'quantify', B + 'quantify!body'), T(B + 'forall'), T(B + 'exist')] + apply_targets(['forall', 'exists'])
+    + [T(ABD + 'quantify'), T(ABD + 'forall'), T(ABD + 'exist')] + aapply_targets(['\\A', 'exists']),
     'C04': [T(B + '_cofactor'), T(B + '_compose'), T(B + '_vector_compose'),
             T('dd.bdd._copy_bdd', variant='same-manager', alias={'old_bdd': 'bdd'}), T('dd.bdd.rename'),
             T(B + 'rename', B + 'rename!body'), T(B + 'cofactor', B + 'cofactor!body'),
@@ -59,6 +74,8 @@ TARGETS = {
             T(B + 'let', B + 'let:int', variant='functions', args={'definitions': 'dict:name->int'}),
             T(B + 'let', B + 'let:name', variant='names', args={'definitions': 'dict:name->name'})],
     'C06': [T(B + 'incref'), T(B + 'decref'), T(B + 'ref'), T(B + 'find_or_add')] + GC,
+    'C08': HANDLES + [T(ABD + 'var'), T(ABD + 'ite'), T(ABD + 'quantify'), T(ABD + 'forall'), T(ABD + 'exist'), T(ABD + 'succ'),
+                      T(AF + 'low'), T(AF + 'high')] + aapply_targets(['not', '&', 'ite', 'forall']) + AOPS[:7],
     'C09': PLUMBING + [T(B + 'ite', B + 'ite!body'), T(B + 'var', B + 'var!body'), T(B + 'rename', B + 'rename!body'),
                        T('dd.bdd.copy_bdd', variant='two-managers')],
     'C10': [T(B + 'is_essential')],
@@ -68,6 +85,7 @@ TARGETS = {
             T(B + 'var_at_level'), T(B + 'level_of_var'), T(B + 'var_levels'), T(B + 'var', B + 'var!body')],
     'C17': [T(B + 'find_or_add'), T(B + 'add_var'), T(B + '_check_var'), T(B + '_next_free_level'), T(B + 'var_at_level'),
             T(B + 'level_of_var'), T(B + 'var', B + 'var!body'), T('dd.bdd.rename'), T(B + '_next_free_int')]
-    + apply_targets(['not', 'and', 'ite', 'forall']) + PLUMBING[1:6],
-    'C18': [T(B + 'succ')],
+    + apply_targets(['not', 'and', 'ite', 'forall']) + PLUMBING[1:6]
+    + [T(AF + '__init__'), T(ABD + '_wrap'), T(ABD + '_add_int'), T(ABD + 'var'), T(ABD + 'ite'), T(ABD + 'quantify')] + aapply_targets(['!', '||', 'ite']),
+    'C18': [T(B + 'succ')] + AVIEWS,
 }
